@@ -680,6 +680,34 @@ func formatCorners(c *Ctx) {
 			c.PropFail("roundtrip-id", fmt.Sprintf("a GNU tar written with -S scans to %s, without -S to %s", a, b), op)
 		}
 	}
+	// (1b) the same fileset written by GNU tar with a volume label (-V), and as an incremental archive (-g: directories
+	// become dumpdir entries): the same id
+	if e2 == nil {
+		os.MkdirAll(filepath.Join(d, "sub"), 0755)
+		os.WriteFile(filepath.Join(d, "sub", "inner"), []byte("i"), 0644)
+		for _, p := range []string{"sub/inner", "sub", "."} {
+			os.Chtimes(filepath.Join(d, p), time.Unix(1e9, 0), time.Unix(1e9, 0))
+		}
+		plain2, label, incr := filepath.Join(base, "plain2.tar"), filepath.Join(base, "label.tar"), filepath.Join(base, "incr.tar")
+		if exec.Command("tar", "--format=gnu", "-C", d, "-cf", plain2, ".").Run() == nil {
+			want := scan("tar", plain2)
+			if exec.Command("tar", "--format=gnu", "-V", "MYLABEL", "-C", d, "-cf", label, ".").Run() == nil {
+				got := scan("tar", label)
+				c.H("corner:gnu-label:" + strings.Fields(got)[0])
+				if strings.HasPrefix(want, "ok ") && got != want {
+					c.PropFail("valid-archive-refused", fmt.Sprintf("a GNU tar with a volume label (tar -V) scans to %s; the same fileset without the label to %s", got, want), op)
+				}
+			}
+			if exec.Command("tar", "--format=gnu", "-g", filepath.Join(base, "snar"), "-C", d, "-cf", incr, ".").Run() == nil {
+				// (reading the directories for the snapshot file touches their atimes only)
+				got := scan("tar", incr)
+				c.H("corner:gnu-incremental:" + strings.Fields(got)[0])
+				if strings.HasPrefix(want, "ok ") && got != want {
+					c.PropFail("valid-archive-refused", fmt.Sprintf("a GNU incremental archive (tar -g, level 0: directories are dumpdir entries) scans to %s; the same fileset as an ordinary archive to %s", got, want), op)
+				}
+			}
+		}
+	}
 	// (2)
 	mkzip := func(path string, extra []byte) {
 		var buf bytes.Buffer
